@@ -7,6 +7,8 @@ the constructors produce (torchvision's preprocessing: brightness/contrast/satur
 hue range −½ ≤ lb ≤ 0 ≤ ub ≤ ½, σ_lb ≤ σ_ub, thresholds ≤ their neutral value, probabilities/magnitudes ≥ 0).
 -/
 import KDVerif.Model.Strength
+import KDVerif.Model.C15Spec
+import KDVerif.Lemmas.C15Extra
 import Mathlib.Tactic.Linarith
 import Mathlib.Tactic.Ring
 import Mathlib.Algebra.Order.Field.Rat
@@ -362,5 +364,656 @@ theorem nBatches_updates (u B : Nat) : nBatches B (.updates u) = u := rfl
 /-- non-vacuity: brightness=0.4 gives the range [0.6, 1.4] -/
 example : (0 : Rat) ≤ (Range.mk0 (3/5) (7/5)).ogLb ∧ (Range.mk0 (3/5) (7/5)).ogLb ≤ 1 ∧ 1 ≤ (Range.mk0 (3/5) (7/5)).ogUb := by
   simp only [Range.mk0]; refine ⟨by norm_num, by norm_num, by norm_num⟩
+
+/-! ## Round-3 additions (audit gaps 1–5)
+
+Specification-side definitions (`weakest`, `asConstructed`, `Constructed`, `Domain`, `Supported`, `Weaker`,
+`scaleHistory`, `Sched`, `loaderRun`) are in KDVerif/Model/C15Spec.lean; helper lemmas (`c15x_…`) in
+KDVerif/Lemmas/C15Extra.lean. -/
+
+open KDVerif.C15X
+
+/-- a nested pipeline used in the examples below: compose [RandomColorJitter, RandomGaussianBlur,
+    compose [Solarize(int), RandomGrayscale, RandomRotation(30)], MagnitudeSampler, non-scalable, Solarize(float)] -/
+def exTree : T :=
+  .compose [
+    .wrap (.jitter ⟨some (Range.mk0 (3/5) (7/5)), none, some (Range.mk0 (4/5) (6/5)), some (Range.mk0 (-1/10) (1/10))⟩),
+    .wrap (.blur ⟨1/10, 2, 2⟩),
+    .compose [.solarizeI 128 128, .grayscale (1/5) (1/5), .rotation ⟨-30, 30, -30, 30⟩],
+    .magnitude ⟨9/10, 1/2, 0, 1, 9/10, 1/2, 0, 1⟩,
+    .other,
+    .solarizeF (1/2) (1/2)]
+
+/-- non-vacuity of every tree hypothesis used below: the example pipeline is as constructed, inside the
+    constructors' parameter ranges, and supports strength scaling -/
+theorem exTree_ok : Constructed exTree ∧ Domain exTree ∧ Supported exTree := by
+  simp [exTree, Constructed, Constructed.constructedList, Domain, Domain.domainList, Supported,
+    Supported.supportedList, Range.mk0, CenteredDomain, HueDomain]
+  norm_num
+
+/-! ### gap 2: rotation (all ranges) and the magnitude sampler (all four fields) -/
+
+/-- clause "every transform that supports strength scaling": a rotation with an asymmetric constructed range does
+    not support it — `_scale_strength` asserts, for every factor -/
+theorem rotation_asymmetric_rejected (r : Rotation) (f : Rat) (h : r.ogLb ≠ -r.ogUb) : scaleRotation r f = none := by
+  simp [scaleRotation, h]
+
+/-- closed form for every symmetric rotation (any sign of `og_ub`, any current state): `[-og_ub·f, og_ub·f]` -/
+theorem rotation_scale_general (r : Rotation) (f : Rat) (h : r.ogLb = -r.ogUb) :
+    scaleRotation r f = some ⟨r.ogLb, r.ogUb, -r.ogUb * f, r.ogUb * f⟩ := by
+  simp [scaleRotation, h]
+
+/-- clause "intermediate factors move every bound monotonically between the two", rotation built from
+    `degrees = d ≥ 0` (torchvision's `[-d, d]`): the range widens with the factor and stays between `[0,0]`
+    and `[-d, d]` -/
+theorem rotation_mono (d c₁ c₂ : Rat) (hd : 0 ≤ d) (f g : Rat) (hf : 0 ≤ f) (hfg : f ≤ g) (hg : g ≤ 1) :
+    ∃ rf rg, scaleRotation ⟨-d, d, c₁, c₂⟩ f = some rf ∧ scaleRotation ⟨-d, d, c₁, c₂⟩ g = some rg ∧
+      rg.lb ≤ rf.lb ∧ rf.ub ≤ rg.ub ∧ -d ≤ rf.lb ∧ rf.lb ≤ 0 ∧ 0 ≤ rf.ub ∧ rf.ub ≤ d := by
+  refine ⟨_, _, rotation_scale d f c₁ c₂, rotation_scale d g c₁ c₂, ?_⟩
+  refine ⟨by nlinarith, by nlinarith, by nlinarith, by nlinarith, by nlinarith, by nlinarith⟩
+
+example : ∃ rf rg, scaleRotation ⟨-30, 30, 7, 7⟩ (1/3) = some rf ∧ scaleRotation ⟨-30, 30, 7, 7⟩ (1/2) = some rg ∧
+    rg.lb ≤ rf.lb ∧ rf.ub ≤ rg.ub ∧ -30 ≤ rf.lb ∧ rf.lb ≤ 0 ∧ 0 ≤ rf.ub ∧ rf.ub ≤ 30 :=
+  rotation_mono 30 7 7 (by norm_num) (1/3) (1/2) (by norm_num) (by norm_num) (by norm_num)
+
+/-- the same clause for every rotation that supports scaling, also a sequence `degrees = (d, -d)` given in
+    reversed order: each bound moves monotonically away from 0 towards its constructed value -/
+theorem rotation_mono_any_sign (r : Rotation) (h : r.ogLb = -r.ogUb) (f g : Rat) (hf : 0 ≤ f) (hfg : f ≤ g)
+    (hg : g ≤ 1) :
+    ∃ rf rg, scaleRotation r f = some rf ∧ scaleRotation r g = some rg ∧
+      between0 rf.lb rg.lb ∧ between0 rf.ub rg.ub ∧ between0 rg.lb r.ogLb ∧ between0 rg.ub r.ogUb := by
+  refine ⟨_, _, rotation_scale_general r f h, rotation_scale_general r g h, ?_⟩
+  refine ⟨c15x_between0_mul _ f g hf hfg, c15x_between0_mul _ f g hf hfg, ?_, ?_⟩
+  · have := c15x_between0_mul (-r.ogUb) g 1 (le_trans hf hfg) hg
+    rw [h]; simpa using this
+  · have := c15x_between0_mul r.ogUb g 1 (le_trans hf hfg) hg
+    simpa using this
+
+/-- clause "move every bound monotonically between the two", `MagnitudeSampler`: magnitude, std, min and max all
+    grow with the factor and stay between 0 and their constructed values. Hypotheses: the constructor's asserts
+    `0 ≤ magnitude_min ≤ magnitude ≤ magnitude_max`, `0 ≤ magnitude_std` (only the signs are used) -/
+theorem magnitude_mono_all (m : Magnitude) (h1 : 0 ≤ m.ogMag) (h2 : 0 ≤ m.ogStd) (h3 : 0 ≤ m.ogMin) (h4 : 0 ≤ m.ogMax)
+    (f g : Rat) (hf : 0 ≤ f) (hfg : f ≤ g) (hg : g ≤ 1) :
+    ((scaleMagnitude m f).mag ≤ (scaleMagnitude m g).mag ∧ (scaleMagnitude m f).std ≤ (scaleMagnitude m g).std ∧
+     (scaleMagnitude m f).min ≤ (scaleMagnitude m g).min ∧ (scaleMagnitude m f).max ≤ (scaleMagnitude m g).max) ∧
+    (0 ≤ (scaleMagnitude m f).mag ∧ (scaleMagnitude m f).mag ≤ m.ogMag) ∧
+    (0 ≤ (scaleMagnitude m f).std ∧ (scaleMagnitude m f).std ≤ m.ogStd) ∧
+    (0 ≤ (scaleMagnitude m f).min ∧ (scaleMagnitude m f).min ≤ m.ogMin) ∧
+    (0 ≤ (scaleMagnitude m f).max ∧ (scaleMagnitude m f).max ≤ m.ogMax) := by
+  have hf1 : f ≤ 1 := le_trans hfg hg
+  simp only [scaleMagnitude]
+  refine ⟨⟨by nlinarith, by nlinarith, by nlinarith, by nlinarith⟩, ⟨by nlinarith, by nlinarith⟩,
+    ⟨by nlinarith, by nlinarith⟩, ⟨by nlinarith, by nlinarith⟩, ⟨by nlinarith, by nlinarith⟩⟩
+
+/-- the sampler's constructor invariant `min ≤ magnitude ≤ max` survives every factor (so `np.clip` keeps a
+    well-formed interval) -/
+theorem magnitude_order_kept (m : Magnitude) (h1 : m.ogMin ≤ m.ogMag) (h2 : m.ogMag ≤ m.ogMax) (f : Rat) (hf : 0 ≤ f) :
+    (scaleMagnitude m f).min ≤ (scaleMagnitude m f).mag ∧ (scaleMagnitude m f).mag ≤ (scaleMagnitude m f).max := by
+  simp only [scaleMagnitude]
+  exact ⟨by nlinarith, by nlinarith⟩
+
+example : let m : Magnitude := ⟨9/10, 1/2, 0, 1, 0, 0, 0, 0⟩
+    (0 ≤ m.ogMag ∧ 0 ≤ m.ogStd ∧ 0 ≤ m.ogMin ∧ 0 ≤ m.ogMax) ∧ (scaleMagnitude m (1/2)).std = 1/4 := by
+  simp only [scaleMagnitude]; norm_num
+
+/-! ### gap 1: compositions — scale 1, scale 0, monotonicity, factor histories over whole trees -/
+
+/-- `scale_strength` fails (the rotation assertion) exactly on trees containing an asymmetric rotation — for
+    every factor alike -/
+theorem scale_isSome_iff (f : Rat) (t : T) : (scale f t).isSome = true ↔ Supported t := c15x_scale_isSome_iff f t
+
+/-- one more call after any call: only the later factor counts, also when the assertion fires -/
+theorem scale_bind_last (f g : Rat) (t : T) : (scale f t).bind (scale g) = scale g t := by
+  cases h : scale f t with
+  | some t' => simp [scale_last_only f g t t' h]
+  | none => simp [c15x_scale_none_indep f g t h]
+
+/-- clause "the result depends only on the last factor given (no compounding), also through compositions", as a
+    fold over an arbitrary factor history: after `scale_strength(f₁); …; scale_strength(fₙ); scale_strength(f)` on
+    the same (arbitrarily nested) object the state is that of a single `scale_strength(f)`. No hypothesis: if the
+    tree does not support scaling both sides are the failed assertion. `scaleHistory` is the driver's loop. -/
+theorem scale_history_last (t : T) (fs : List Rat) (f : Rat) : scaleHistory (fs ++ [f]) t = scale f t := by
+  unfold scaleHistory
+  have key : ∀ (fs : List Rat) (o : Option T), (∀ g, o.bind (scale g) = scale g t) →
+      (fs ++ [f]).foldl (fun o f => o.bind (scale f)) o = scale f t := by
+    intro fs
+    induction fs with
+    | nil => intro o ho; simpa using ho f
+    | cons h fs ih =>
+      intro o ho
+      simp only [List.cons_append, List.foldl_cons]
+      apply ih
+      intro g
+      rw [ho h]
+      exact scale_bind_last h g t
+  exact key fs (some t) (fun g => rfl)
+
+example : scaleHistory [1/3, 1, 0, 1/2] exTree = scale (1/2) exTree := scale_history_last exTree [1/3, 1, 0] (1/2)
+
+mutual
+  /-- clause "scaling by 1 restores exactly the parameter ranges it was constructed with … also through
+      compositions": on a tree in its constructed state (`Constructed`: current = og at every node, og inside
+      torchvision's ranges, rotations symmetric) `scale_strength(1)` returns every node unchanged -/
+  theorem tree_scale_one : ∀ t : T, Constructed t → scale 1 t = some t
+    | .jitter c, h => by
+      obtain ⟨hb, hc, hs, hh⟩ := h
+      simp only [scale, jitter_scale_one c hb hc hs hh]
+    | .blur b, h => by
+      simp only [Constructed] at h
+      cases b with
+      | mk a o u =>
+        simp only at h
+        simp only [scale, scaleBlur, Option.some.injEq, T.blur.injEq, Blur.mk.injEq, true_and]
+        rw [h]; ring
+    | .solarizeF og c, h => by
+      simp only [Constructed] at h
+      simp only [scale, solarize_float_one, h]
+    | .solarizeI og c, h => by
+      simp only [Constructed] at h
+      simp only [scale, solarize_int_one, h]
+    | .grayscale p c, h => by
+      simp only [Constructed] at h
+      simp only [scale, grayscale_one, h]
+    | .rotation r, h => by
+      obtain ⟨h0, h1, h2⟩ := h
+      cases r with
+      | mk a b c d =>
+        simp only at h0 h1 h2
+        simp [scale, scaleRotation, h0, h1, h2]
+    | .magnitude m, h => by
+      obtain ⟨h0, h1, h2, h3⟩ := h
+      cases m with
+      | mk a b c d e f g i =>
+        simp only at h0 h1 h2 h3
+        simp [scale, scaleMagnitude, h0, h1, h2, h3]
+    | .other, _ => rfl
+    | .wrap t, h => by
+      simp only [Constructed] at h
+      simp only [scale, tree_scale_one t h, Option.map_some]
+    | .compose ts, h => by
+      simp only [Constructed] at h
+      simp only [scale, treeList_scale_one ts h, Option.map_some]
+  theorem treeList_scale_one : ∀ ts : List T, Constructed.constructedList ts → scale.scaleList 1 ts = some ts
+    | [], _ => rfl
+    | t :: ts, h => by
+      simp only [Constructed.constructedList] at h
+      simp only [scale.scaleList, tree_scale_one t h.1, treeList_scale_one ts h.2]
+end
+
+example : scale 1 exTree = some exTree := tree_scale_one exTree exTree_ok.1
+
+/-- factor 0 on a brightness/contrast/saturation range is the independently defined identity range -/
+theorem scaleCentered_zero_eq (r : Range) : scaleCentered r 0 = weakestCentered r := by
+  have := centered_scale_zero r
+  cases r with
+  | mk a b c d =>
+    simp only [scaleCentered, weakestCentered] at this ⊢
+    rw [this.1, this.2]
+
+theorem scaleHue_zero_eq (r : Range) : scaleHue r 0 = weakestHue r := by
+  have := hue_scale_zero r
+  cases r with
+  | mk a b c d =>
+    simp only [scaleHue, weakestHue] at this ⊢
+    rw [this.1, this.2]
+
+/-- colour jitter at factor 0: every present range is the identity, absent ones stay absent -/
+theorem jitter_scale_zero (c : ColorJitter) : scaleColorJitter c 0 = weakestJitter c := by
+  simp only [scaleColorJitter, weakestJitter, scaleCentered_zero_eq, scaleHue_zero_eq]
+
+mutual
+  /-- clause "scaling by 0 collapses every range to its weakest setting (the identity where the transform has
+      one) … also through compositions": `weakest` is defined node by node without reference to `scale`
+      (Model/C15Spec.lean). Hypothesis `Supported`: no asymmetric rotation in the tree (otherwise the call
+      asserts, see `scale_isSome_iff`); no assumption on the current state or on the parameter ranges -/
+  theorem tree_scale_zero : ∀ t : T, Supported t → scale 0 t = some (weakest t)
+    | .jitter c, _ => by simp only [scale, weakest, jitter_scale_zero]
+    | .blur b, _ => by
+      simp only [scale, weakest, scaleBlur, Option.some.injEq, T.blur.injEq, Blur.mk.injEq, true_and]; ring
+    | .solarizeF og c, _ => by simp only [scale, weakest, solarize_float_zero]
+    | .solarizeI og c, _ => by simp only [scale, weakest, solarize_int_zero]
+    | .grayscale p c, _ => by simp only [scale, weakest, grayscale_zero]
+    | .rotation r, h => by
+      simp only [Supported] at h
+      simp [scale, weakest, scaleRotation, h]
+    | .magnitude m, _ => by simp [scale, weakest, scaleMagnitude]
+    | .other, _ => rfl
+    | .wrap t, h => by
+      simp only [Supported] at h
+      simp only [scale, weakest, tree_scale_zero t h, Option.map_some]
+    | .compose ts, h => by
+      simp only [Supported] at h
+      simp only [scale, weakest, treeList_scale_zero ts h, Option.map_some]
+  theorem treeList_scale_zero : ∀ ts : List T, Supported.supportedList ts →
+      scale.scaleList 0 ts = some (weakest.weakestList ts)
+    | [], _ => rfl
+    | t :: ts, h => by
+      simp only [Supported.supportedList] at h
+      simp only [scale.scaleList, weakest.weakestList, tree_scale_zero t h.1, treeList_scale_zero ts h.2]
+end
+
+example : scale 0 exTree = some (.compose [
+    .wrap (.jitter ⟨some ⟨3/5, 7/5, 1, 1⟩, none, some ⟨4/5, 6/5, 1, 1⟩, some ⟨-1/10, 1/10, 0, 0⟩⟩),
+    .wrap (.blur ⟨1/10, 2, 1/10⟩),
+    .compose [.solarizeI 128 256, .grayscale (1/5) 0, .rotation ⟨-30, 30, 0, 0⟩],
+    .magnitude ⟨9/10, 1/2, 0, 1, 0, 0, 0, 0⟩,
+    .other,
+    .solarizeF (1/2) 1]) := by
+  rw [tree_scale_zero exTree exTree_ok.2.2]
+  simp [exTree, weakest, weakest.weakestList, weakestJitter, weakestCentered, weakestHue, Range.mk0]
+
+theorem optRel_centered_mono (o : Option Range) (hd : ∀ r, o = some r → CenteredDomain r)
+    (f g : Rat) (hf : 0 ≤ f) (hfg : f ≤ g) (hg : g ≤ 1) :
+    optRel Range.Inside (o.map (scaleCentered · f)) (o.map (scaleCentered · g)) := by
+  cases o with
+  | none => trivial
+  | some r =>
+    obtain ⟨h0, h1, h2⟩ := hd r rfl
+    have := centered_scale_mono r h0 h1 h2 f g hf hfg hg
+    exact ⟨rfl, rfl, this.1, this.2.1⟩
+
+theorem optRel_hue_mono (o : Option Range) (hd : ∀ r, o = some r → HueDomain r)
+    (f g : Rat) (hf : 0 ≤ f) (hfg : f ≤ g) (hg : g ≤ 1) :
+    optRel Range.Inside (o.map (scaleHue · f)) (o.map (scaleHue · g)) := by
+  cases o with
+  | none => trivial
+  | some r =>
+    obtain ⟨h0, h1, h2, h3⟩ := hd r rfl
+    have := hue_scale_mono r h0 h1 h2 h3 f g hf hfg hg
+    exact ⟨rfl, rfl, this.1, this.2.1⟩
+
+mutual
+  /-- clause "intermediate factors move every bound monotonically between the two … also through compositions":
+      for `0 ≤ f ≤ g ≤ 1` both calls succeed and the tree scaled by `f` is node by node at most as strong as the
+      tree scaled by `g` (`Weaker`: same shape and constructed parameters; colour/hue ranges nested, blur σ_ub,
+      grayscale p, magnitude/std/min/max smaller, solarize thresholds larger, rotation bounds nearer 0).
+      Hypothesis `Domain`: the constructed parameters are in the ranges the constructors guarantee (torchvision's
+      `0 ≤ lb ≤ 1 ≤ ub`, `-½ ≤ hue_lb ≤ 0 ≤ hue_ub ≤ ½`, `σ_lb ≤ σ_ub`; `MagnitudeSampler`'s asserts; rotation
+      symmetric; grayscale `p ≥ 0`; solarize threshold `≤ 1.0` resp. in `[0, 256]` — the meaningful thresholds,
+      `KDSolarize.__init__` itself does not check) -/
+  theorem tree_scale_mono (f g : Rat) (hf : 0 ≤ f) (hfg : f ≤ g) (hg : g ≤ 1) : ∀ t : T, Domain t →
+      ∃ a b, scale f t = some a ∧ scale g t = some b ∧ Weaker a b
+    | .jitter c, h => by
+      obtain ⟨hb, hc, hs, hh⟩ := h
+      exact ⟨_, _, rfl, rfl, Weaker.jitter _ _ (optRel_centered_mono _ hb f g hf hfg hg)
+        (optRel_centered_mono _ hc f g hf hfg hg) (optRel_centered_mono _ hs f g hf hfg hg)
+        (optRel_hue_mono _ hh f g hf hfg hg)⟩
+    | .blur b, h => by
+      simp only [Domain] at h
+      exact ⟨_, _, rfl, rfl, Weaker.blur _ _ rfl rfl (blur_scale_mono b h f g hf hfg hg).1⟩
+    | .solarizeF og c, h => by
+      simp only [Domain] at h
+      exact ⟨_, _, rfl, rfl, Weaker.solarizeF _ _ _ (solarize_float_mono og h f g hfg)⟩
+    | .solarizeI og c, h => by
+      simp only [Domain] at h
+      exact ⟨_, _, rfl, rfl, Weaker.solarizeI _ _ _ (solarize_int_mono og h.1 h.2 f g hf hfg hg)⟩
+    | .grayscale p c, h => by
+      simp only [Domain] at h
+      exact ⟨_, _, rfl, rfl, Weaker.grayscale _ _ _ (grayscale_mono p h f g hfg)⟩
+    | .rotation r, h => by
+      simp only [Domain] at h
+      obtain ⟨rf, rg, e1, e2, b1, b2, _, _⟩ := rotation_mono_any_sign r h f g hf hfg hg
+      refine ⟨.rotation rf, .rotation rg, by simp only [scale, e1, Option.map_some],
+        by simp only [scale, e2, Option.map_some], Weaker.rotation _ _ ?_ ?_ b1 b2⟩
+      · rw [rotation_scale_general r f h] at e1; rw [rotation_scale_general r g h] at e2
+        simp only [Option.some.injEq] at e1 e2; subst e1; subst e2; rfl
+      · rw [rotation_scale_general r f h] at e1; rw [rotation_scale_general r g h] at e2
+        simp only [Option.some.injEq] at e1 e2; subst e1; subst e2; rfl
+    | .magnitude m, h => by
+      obtain ⟨h1, h2, h3, h4⟩ := h
+      have := (magnitude_mono_all m h1 h2 h3 h4 f g hf hfg hg).1
+      exact ⟨_, _, rfl, rfl, Weaker.magnitude _ _ rfl rfl rfl rfl this.1 this.2.1 this.2.2.1 this.2.2.2⟩
+    | .other, _ => ⟨_, _, rfl, rfl, Weaker.other⟩
+    | .wrap t, h => by
+      simp only [Domain] at h
+      obtain ⟨a, b, e1, e2, w⟩ := tree_scale_mono f g hf hfg hg t h
+      exact ⟨.wrap a, .wrap b, by simp only [scale, e1, Option.map_some], by simp only [scale, e2, Option.map_some],
+        Weaker.wrap _ _ w⟩
+    | .compose ts, h => by
+      simp only [Domain] at h
+      obtain ⟨a, b, e1, e2, w⟩ := treeList_scale_mono f g hf hfg hg ts h
+      exact ⟨.compose a, .compose b, by simp only [scale, e1, Option.map_some],
+        by simp only [scale, e2, Option.map_some], Weaker.compose _ _ w⟩
+  theorem treeList_scale_mono (f g : Rat) (hf : 0 ≤ f) (hfg : f ≤ g) (hg : g ≤ 1) : ∀ ts : List T,
+      Domain.domainList ts →
+      ∃ as bs, scale.scaleList f ts = some as ∧ scale.scaleList g ts = some bs ∧ WeakerList as bs
+    | [], _ => ⟨[], [], rfl, rfl, WeakerList.nil⟩
+    | t :: ts, h => by
+      simp only [Domain.domainList] at h
+      obtain ⟨a, b, e1, e2, w⟩ := tree_scale_mono f g hf hfg hg t h.1
+      obtain ⟨as, bs, e3, e4, ws⟩ := treeList_scale_mono f g hf hfg hg ts h.2
+      exact ⟨a :: as, b :: bs, by simp only [scale.scaleList, e1, e3], by simp only [scale.scaleList, e2, e4],
+        WeakerList.cons _ _ _ _ w ws⟩
+end
+
+example : ∃ a b, scale (1/3) exTree = some a ∧ scale (1/2) exTree = some b ∧ Weaker a b :=
+  tree_scale_mono (1/3) (1/2) (by norm_num) (by norm_num) (by norm_num) exTree exTree_ok.2.1
+
+/-- clause "… between the two", through compositions: every factor in `[0,1]` puts the tree, node by node,
+    between its weakest setting and its constructed setting -/
+theorem tree_scale_between (t : T) (hc : Constructed t) (hd : Domain t) (f : Rat) (hf : 0 ≤ f) (hf1 : f ≤ 1) :
+    ∃ a, scale f t = some a ∧ Weaker (weakest t) a ∧ Weaker a t := by
+  obtain ⟨a0, a, e0, e1, w0⟩ := tree_scale_mono 0 f (le_refl 0) hf hf1 t hd
+  obtain ⟨a', b, e2, e3, w1⟩ := tree_scale_mono f 1 hf hf1 (le_refl 1) t hd
+  have hs : Supported t := by rw [← scale_isSome_iff f t, e1]; rfl
+  rw [tree_scale_zero t hs] at e0
+  rw [tree_scale_one t hc] at e3
+  rw [e1] at e2
+  simp only [Option.some.injEq] at e0 e2 e3
+  subst e0; subst e2; subst e3
+  exact ⟨a, e1, w0, w1⟩
+
+example : ∃ a, scale (2/3) exTree = some a ∧ Weaker (weakest exTree) a ∧ Weaker a exTree :=
+  tree_scale_between exTree exTree_ok.1 exTree_ok.2.1 (2/3) (by norm_num) (by norm_num)
+
+/-- what `Weaker` on compositions means: same number of children, related position by position -/
+theorem weaker_compose_nodewise (as bs : List T) (h : Weaker (.compose as) (.compose bs)) :
+    as.length = bs.length ∧ ∀ (i : Nat) (h1 : i < as.length) (h2 : i < bs.length), Weaker as[i] bs[i] := by
+  cases h with
+  | compose _ _ hl => exact c15x_weakerList_nodewise as bs hl
+
+theorem weaker_wrap_inv (a b : T) (h : Weaker (.wrap a) (.wrap b)) : Weaker a b := by
+  cases h with
+  | wrap _ _ h => exact h
+
+/-- what `Weaker` says at a blur node (the other leaves read off their constructor the same way) -/
+theorem weaker_blur_inv (a b : Blur) (h : Weaker (.blur a) (.blur b)) :
+    a.sigmaLb = b.sigmaLb ∧ a.ogSigmaUb = b.ogSigmaUb ∧ a.sigmaUb ≤ b.sigmaUb := by
+  cases h with
+  | blur _ _ h1 h2 h3 => exact ⟨h1, h2, h3⟩
+
+/-! ### gap 3: the state after any factor history depends only on the last factor and the constructed parameters -/
+
+/-- clause "the result depends only on the last factor given (no compounding)", brightness/contrast/saturation:
+    after any history the range is a closed form in `og_lb`, `og_ub` and the last factor alone -/
+theorem centered_history (r : Range) (fs : List Rat) (f : Rat) :
+    (fs ++ [f]).foldl scaleCentered r = ⟨r.ogLb, r.ogUb, rmax 0 (1 - (1 - r.ogLb) * f), 1 + (r.ogUb - 1) * f⟩ := by
+  rw [c15x_foldl_last scaleCentered centered_last_only]; rfl
+
+/-- … hence two objects built with the same parameters agree after any two histories with the same last factor -/
+theorem centered_history_og_only (r r' : Range) (h1 : r.ogLb = r'.ogLb) (h2 : r.ogUb = r'.ogUb)
+    (fs fs' : List Rat) (f : Rat) :
+    (fs ++ [f]).foldl scaleCentered r = (fs' ++ [f]).foldl scaleCentered r' := by
+  rw [centered_history, centered_history, h1, h2]
+
+example : [1/4, 1, 0, 1/2].foldl scaleCentered ⟨3/5, 7/5, 0, 9⟩ = ⟨3/5, 7/5, 4/5, 6/5⟩ := by
+  rw [show ([1/4, 1, 0, 1/2] : List Rat) = [1/4, 1, 0] ++ [1/2] from rfl, centered_history]
+  simp [rmax]; norm_num
+
+/-- same clause, hue -/
+theorem hue_history (r : Range) (fs : List Rat) (f : Rat) :
+    (fs ++ [f]).foldl scaleHue r = ⟨r.ogLb, r.ogUb, rmax (-1/2) (r.ogLb * f), rmin (1/2) (r.ogUb * f)⟩ := by
+  rw [c15x_foldl_last scaleHue hue_last_only]; rfl
+
+theorem hue_history_og_only (r r' : Range) (h1 : r.ogLb = r'.ogLb) (h2 : r.ogUb = r'.ogUb)
+    (fs fs' : List Rat) (f : Rat) :
+    (fs ++ [f]).foldl scaleHue r = (fs' ++ [f]).foldl scaleHue r' := by
+  rw [hue_history, hue_history, h1, h2]
+
+/-- same clause, the whole `KDColorJitter`: the state after any history is one scaling of the freshly constructed
+    jitter by the last factor -/
+theorem jitter_history (c : ColorJitter) (fs : List Rat) (f : Rat) :
+    (fs ++ [f]).foldl scaleColorJitter c = scaleColorJitter c.asConstructed f := by
+  rw [c15x_foldl_last scaleColorJitter jitter_last_only, c15x_scaleJitter_asConstructed]
+
+theorem jitter_history_og_only (c c' : ColorJitter) (h : c.asConstructed = c'.asConstructed)
+    (fs fs' : List Rat) (f : Rat) :
+    (fs ++ [f]).foldl scaleColorJitter c = (fs' ++ [f]).foldl scaleColorJitter c' := by
+  rw [jitter_history, jitter_history, h]
+
+/-- same clause, `KDGaussianBlurPIL/TV`: closed form in `σ_lb`, `og_σ_ub` and the last factor -/
+theorem blur_history (b : Blur) (fs : List Rat) (f : Rat) :
+    (fs ++ [f]).foldl scaleBlur b = ⟨b.sigmaLb, b.ogSigmaUb, b.sigmaLb + (b.ogSigmaUb - b.sigmaLb) * f⟩ := by
+  rw [c15x_foldl_last scaleBlur blur_last_only]; rfl
+
+theorem blur_history_og_only (b b' : Blur) (h1 : b.sigmaLb = b'.sigmaLb) (h2 : b.ogSigmaUb = b'.ogSigmaUb)
+    (fs fs' : List Rat) (f : Rat) :
+    (fs ++ [f]).foldl scaleBlur b = (fs' ++ [f]).foldl scaleBlur b' := by
+  rw [blur_history, blur_history, h1, h2]
+
+/-- same clause, `MagnitudeSampler` (KDRandAugment, KDThreshold, additive noise) -/
+theorem magnitude_history (m : Magnitude) (fs : List Rat) (f : Rat) :
+    (fs ++ [f]).foldl scaleMagnitude m =
+      ⟨m.ogMag, m.ogStd, m.ogMin, m.ogMax, m.ogMag * f, m.ogStd * f, m.ogMin * f, m.ogMax * f⟩ := by
+  rw [c15x_foldl_last scaleMagnitude magnitude_last_only]; rfl
+
+theorem magnitude_history_og_only (m m' : Magnitude) (h1 : m.ogMag = m'.ogMag) (h2 : m.ogStd = m'.ogStd)
+    (h3 : m.ogMin = m'.ogMin) (h4 : m.ogMax = m'.ogMax) (fs fs' : List Rat) (f : Rat) :
+    (fs ++ [f]).foldl scaleMagnitude m = (fs' ++ [f]).foldl scaleMagnitude m' := by
+  rw [magnitude_history, magnitude_history, h1, h2, h3, h4]
+
+theorem rotation_bind_last (r : Rotation) (f g : Rat) :
+    (scaleRotation r f).bind (scaleRotation · g) = scaleRotation r g := by
+  by_cases h : r.ogLb = -r.ogUb <;> simp [scaleRotation, h]
+
+/-- same clause, `KDRandomRotation` (a failed assertion is absorbing): closed form in the constructed range
+    and the last factor, for every range -/
+theorem rotation_history (r : Rotation) (fs : List Rat) (f : Rat) :
+    (fs ++ [f]).foldl (fun o g => o.bind (scaleRotation · g)) (some r) =
+      if r.ogLb = -r.ogUb then some ⟨r.ogLb, r.ogUb, r.ogLb * f, r.ogUb * f⟩ else none := by
+  rw [c15x_foldl_last_opt scaleRotation rotation_bind_last]; rfl
+
+theorem rotation_history_og_only (r r' : Rotation) (h1 : r.ogLb = r'.ogLb) (h2 : r.ogUb = r'.ogUb)
+    (fs fs' : List Rat) (f : Rat) :
+    (fs ++ [f]).foldl (fun o g => o.bind (scaleRotation · g)) (some r) =
+    (fs' ++ [f]).foldl (fun o g => o.bind (scaleRotation · g)) (some r') := by
+  rw [rotation_history, rotation_history, h1, h2]
+
+/-- same clause, `KDSolarize` float branch (its state lives in the tree node) -/
+theorem solarize_float_history (og cur : Rat) (fs : List Rat) (f : Rat) :
+    scaleHistory (fs ++ [f]) (.solarizeF og cur) = some (.solarizeF og (1 - (1 - og) * f)) := by
+  rw [scale_history_last]; rfl
+
+/-- same clause, `KDSolarize` int branch -/
+theorem solarize_int_history (og cur : Int) (fs : List Rat) (f : Rat) :
+    scaleHistory (fs ++ [f]) (.solarizeI og cur) = some (.solarizeI og (truncRat (256 - (256 - (og : Rat)) * f))) := by
+  rw [scale_history_last]; rfl
+
+/-- same clause, `KDRandomGrayscale` -/
+theorem grayscale_history (ogP p : Rat) (fs : List Rat) (f : Rat) :
+    scaleHistory (fs ++ [f]) (.grayscale ogP p) = some (.grayscale ogP (ogP * f)) := by
+  rw [scale_history_last]; rfl
+
+/-- `scale_strength` reads only constructed parameters: resetting every current field to its `og_*` value
+    changes nothing, at any depth -/
+theorem scale_asConstructed (f : Rat) (t : T) : scale f (asConstructed t) = scale f t := c15x_scale_asConstructed f t
+
+/-- a tree in its constructed state is its own `asConstructed` (so `asConstructed` really is "the parameters it
+    was constructed with") -/
+theorem asConstructed_of_constructed (t : T) (h : Constructed t) : asConstructed t = t :=
+  c15x_asConstructed_of_constructed t h
+
+/-- clause "depends only on the last factor given", for every class and every composition at once: the state
+    after any history is one scaling of the freshly constructed tree by the last factor -/
+theorem scale_history_constructed (t : T) (fs : List Rat) (f : Rat) :
+    scaleHistory (fs ++ [f]) t = scale f (asConstructed t) := by
+  rw [scale_history_last, scale_asConstructed]
+
+/-- … hence two trees built with the same parameters, whatever was done to them before, agree after any two
+    histories that end with the same factor: the state is a function of (constructed parameters, last factor) -/
+theorem scale_history_og_only (t t' : T) (h : asConstructed t = asConstructed t') (fs fs' : List Rat) (f : Rat) :
+    scaleHistory (fs ++ [f]) t = scaleHistory (fs' ++ [f]) t' := by
+  rw [scale_history_constructed, scale_history_constructed, h]
+
+example : scaleHistory [1/3, 1/2] (.blur ⟨1/10, 2, 77⟩) = scaleHistory [1, 0, 1/2] (.blur ⟨1/10, 2, 2⟩) :=
+  scale_history_og_only _ _ rfl [1/3] [1, 0] (1/2)
+
+/-- clauses "scaling by 1 restores exactly …" + "no compounding, also through compositions": whatever factors came
+    before, a final factor 1 gives back the constructed tree -/
+theorem scale_history_one (t : T) (hc : Constructed t) (fs : List Rat) : scaleHistory (fs ++ [1]) t = some t := by
+  rw [scale_history_last, tree_scale_one t hc]
+
+/-- … and a final factor 0 gives the weakest tree -/
+theorem scale_history_zero (t : T) (hs : Supported t) (fs : List Rat) :
+    scaleHistory (fs ++ [0]) t = some (weakest t) := by
+  rw [scale_history_last, tree_scale_zero t hs]
+
+theorem ex_solarize_half : scaleSolarizeInt 128 (1/2) = 192 := by
+  unfold scaleSolarizeInt
+  have : (256 : Rat) - (256 - ((128 : Int) : Rat)) * (1/2) = ((192 : Int) : Rat) := by push_cast; norm_num
+  rw [this, truncRat_int]
+
+/-- the example pipeline after the history 1/3, 1, 0, 1/2, evaluated -/
+example : scaleHistory [1/3, 1, 0, 1/2] exTree = some (.compose [
+    .wrap (.jitter ⟨some ⟨3/5, 7/5, 4/5, 6/5⟩, none, some ⟨4/5, 6/5, 9/10, 11/10⟩, some ⟨-1/10, 1/10, -1/20, 1/20⟩⟩),
+    .wrap (.blur ⟨1/10, 2, 21/20⟩),
+    .compose [.solarizeI 128 192, .grayscale (1/5) (1/10), .rotation ⟨-30, 30, -15, 15⟩],
+    .magnitude ⟨9/10, 1/2, 0, 1, 9/20, 1/4, 0, 1/2⟩,
+    .other,
+    .solarizeF (1/2) (3/4)]) := by
+  rw [show ([1/3, 1, 0, 1/2] : List Rat) = [1/3, 1, 0] ++ [1/2] from rfl, scale_history_last]
+  simp [exTree, scale, scale.scaleList, scaleColorJitter, scaleCentered, scaleHue, scaleBlur, scaleSolarizeFloat,
+    scaleGrayscale, scaleRotation, scaleMagnitude, Range.mk0, rmax, rmin]
+  norm_num
+  exact ex_solarize_half
+
+/-! ### gap 4: the stateful scheduled transform -/
+
+/-- clause "a scheduled transform applies to every sample of global batch b the schedule's value at b … and reports
+    that value in the context", per worker: the `k`-th call (0-based) of worker `w` among `W`, after
+    `worker_init_fn`, computes batch index `w + (k / B)·W` — the worker's `(k / B)`-th batch under round-robin
+    dealing —, writes the schedule's value there into ctx, and applies the wrapped transform scaled by exactly
+    that value (one scaling of the original transform: the `k` earlier scalings of the same object leave no
+    trace). All `w, W, B, k`, every run length, every wrapped tree, every schedule. -/
+theorem scheduled_kth_call (sch : Nat → Nat → Rat) (w W B : Nat) (run : RunLen) (t : T) (k : Nat) :
+    Sched.nthCall sch (Sched.workerInit w W B run t) k =
+      ⟨workerBatch w W (k / B), sch (workerBatch w W (k / B)) (nBatches B run),
+       scale (sch (workerBatch w W (k / B)) (nBatches B run)) t⟩ := by
+  have h0 : HistOf t (Sched.workerInit w W B run t) := fun g => rfl
+  have hbl := fun f g => scale_bind_last f g t
+  obtain ⟨i1, i2, i3, i4, i5, i6⟩ := c15x_sched_after_inv sch t hbl k _ h0
+  have hc := (c15x_histOf_call sch t hbl _ i6).2
+  unfold Sched.nthCall
+  generalize Sched.after sch k (Sched.workerInit w W B run t) = s at *
+  simp only [Sched.workerInit] at i1 i2 i3 i4 i5
+  have hb : batchIdx s.sampleCounter s.batchSize s.numWorkers s.rank = workerBatch w W (k / B) := by
+    rw [i1, i2, i3, i5, Nat.zero_add]; unfold batchIdx workerBatch; omega
+  rw [hb, i4] at hc
+  exact hc
+
+/-- round-robin dealing: global batch `b` is batch number `b / W` of worker `b % W` … -/
+theorem workerBatch_cover (b W : Nat) : workerBatch (b % W) W (b / W) = b := by
+  unfold workerBatch; rw [Nat.add_comm]; exact Nat.div_add_mod' b W
+
+/-- … and of no other worker / position -/
+theorem workerBatch_unique (w W j b : Nat) (hw : w < W) (h : workerBatch w W j = b) : w = b % W ∧ j = b / W := by
+  unfold workerBatch at h
+  subst h
+  have hW : 0 < W := by omega
+  constructor
+  · rw [Nat.add_mul_mod_self_right, Nat.mod_eq_of_lt hw]
+  · rw [Nat.add_mul_div_right _ _ hW, Nat.div_eq_of_lt hw, Nat.zero_add]
+
+/-- same clause, per sample: sample `s < B` of global batch `b` is call number `(b / W)·B + s` of worker `b % W`
+    (full batches); that call computes batch index `b`, reports `schedule(b)` in ctx and applies the transform
+    scaled by `schedule(b)` — the right-hand side does not mention `W` -/
+theorem scheduled_sample_of_batch (sch : Nat → Nat → Rat) (W B : Nat) (run : RunLen) (t : T)
+    (b s : Nat) (hs : s < B) :
+    Sched.nthCall sch (Sched.workerInit (b % W) W B run t) (b / W * B + s) =
+      ⟨b, sch b (nBatches B run), scale (sch b (nBatches B run)) t⟩ := by
+  rw [scheduled_kth_call, c15x_div_full _ _ _ hs, workerBatch_cover]
+
+example : Sched.nthCall (fun b n => (b : Rat) / n) (Sched.workerInit 1 3 4 (.updates 10) exTree) 9 =
+    ⟨7, 7/10, scale (7/10) exTree⟩ := by
+  rw [scheduled_kth_call]; simp [workerBatch, nBatches]
+
+/-- clause "… independent of how many workers share the batches", end to end: simulate a DataLoader with `W ≥ 1`
+    workers, each with its own copy of the scheduled transform initialised by `worker_init_fn`, global batches
+    `0 … N-1` of `B` samples dealt round-robin (`loaderRun`, Model/C15Spec.lean). Every one of the `B` calls made
+    for global batch `b` computes batch index `b`, reports `schedule(b, n_batches)` in ctx and applies the
+    wrapped transform scaled by that value. The right-hand side does not depend on `W`. -/
+theorem loader_independent_of_workers (sch : Nat → Nat → Rat) (W B : Nat) (hW : 0 < W) (run : RunLen) (t : T)
+    (N : Nat) :
+    loaderRun sch W B 0 N (fun w => Sched.workerInit w W B run t) =
+      (List.range N).map (fun b => List.replicate B
+        ⟨b, sch b (nBatches B run), scale (sch b (nBatches B run)) t⟩) := by
+  rw [List.range_eq_range']
+  apply c15x_loaderRun_spec sch W B (nBatches B run) hW t (fun f g => scale_bind_last f g t)
+  intro w hw
+  exact ⟨rfl, rfl, rfl, rfl, fun g => rfl, 0, by simp [Sched.workerInit], by omega, by omega⟩
+
+/-- … so two loaders with different worker counts make exactly the same calls observable -/
+theorem loader_worker_count_irrelevant (sch : Nat → Nat → Rat) (W W' B : Nat) (hW : 0 < W) (hW' : 0 < W')
+    (run : RunLen) (t : T) (N : Nat) :
+    loaderRun sch W B 0 N (fun w => Sched.workerInit w W B run t) =
+    loaderRun sch W' B 0 N (fun w => Sched.workerInit w W' B run t) := by
+  rw [loader_independent_of_workers sch W B hW, loader_independent_of_workers sch W' B hW']
+
+/-- clause "… and reports that value in the context" + schedule length: in a run of `n_batches` global batches
+    every call evaluates the schedule inside its range, reports exactly the evaluated value, and the transform
+    it applies is scaled by the reported value -/
+theorem scheduled_ctx_is_applied_strength (sch : Nat → Nat → Rat) (W B : Nat) (hW : 0 < W) (run : RunLen) (t : T)
+    (outs : List CallOut) (o : CallOut)
+    (h1 : outs ∈ loaderRun sch W B 0 (nBatches B run) (fun w => Sched.workerInit w W B run t)) (h2 : o ∈ outs) :
+    o.batchIdx < nBatches B run ∧ o.ctxStrength = sch o.batchIdx (nBatches B run) ∧
+    o.applied = scale o.ctxStrength t := by
+  rw [loader_independent_of_workers sch W B hW] at h1
+  simp only [List.mem_map, List.mem_range] at h1
+  obtain ⟨b, hb, rfl⟩ := h1
+  have := (List.mem_replicate.mp h2).2
+  subst this
+  exact ⟨hb, rfl, rfl⟩
+
+example : loaderRun (fun b n => (b : Rat) / n) 3 2 0 4
+      (fun w => Sched.workerInit w 3 2 (.updates 4) (.grayscale (1/5) (1/5))) =
+    [[⟨0, 0, some (.grayscale (1/5) 0)⟩, ⟨0, 0, some (.grayscale (1/5) 0)⟩],
+     [⟨1, 1/4, some (.grayscale (1/5) (1/20))⟩, ⟨1, 1/4, some (.grayscale (1/5) (1/20))⟩],
+     [⟨2, 1/2, some (.grayscale (1/5) (1/10))⟩, ⟨2, 1/2, some (.grayscale (1/5) (1/10))⟩],
+     [⟨3, 3/4, some (.grayscale (1/5) (3/20))⟩, ⟨3, 3/4, some (.grayscale (1/5) (3/20))⟩]] := by
+  rw [loader_independent_of_workers _ _ _ (by decide)]
+  simp [List.range, List.range.loop, nBatches, scale, scaleGrayscale, List.replicate]
+  norm_num
+
+/-! ### gap 5: the schedule length on the property's domain (full batches), all three ways of giving it -/
+
+/-- quantifier "schedule lengths with full batches": when every batch is full — `drop_last`, or each rank's
+    per-epoch length `⌊n/W⌋` a multiple of `B` — `epochs=e` gives `e · ⌊n/W⌋ / B` whatever `drop_last` says, the
+    same as `updates=` that number, and (no remainder) the same as `samples = e · ⌊n/W⌋` -/
+theorem nBatches_full_batches (e n W B : Nat) (hB : 0 < B) (dl : Bool) (hfull : dl = true ∨ (n / W) % B = 0) :
+    nBatches B (.epochs e n W dl) = e * (n / W / B) ∧
+    nBatches B (.epochs e n W dl) = nBatches B (.updates (e * (n / W / B))) ∧
+    ((n / W) % B = 0 → nBatches B (.samples (e * (n / W))) = nBatches B (.epochs e n W dl)) := by
+  have h1 : nBatches B (.epochs e n W dl) = e * (n / W / B) := by
+    cases dl with
+    | true => exact (nBatches_epochs e n W B hB).1
+    | false =>
+      have hm : (n / W) % B = 0 := by
+        rcases hfull with h | h
+        · cases h
+        · exact h
+      rw [(nBatches_epochs e n W B hB).2.2.1 hm]; exact (nBatches_epochs e n W B hB).1
+  refine ⟨h1, h1, ?_⟩
+  intro hm
+  rw [h1]
+  have hdvd : B ∣ n / W := Nat.dvd_of_mod_eq_zero hm
+  obtain ⟨q, hq⟩ := hdvd
+  have hmod : (e * (n / W)) % B = 0 := by
+    rw [hq, ← Nat.mul_assoc, Nat.mul_comm e B, Nat.mul_assoc]; exact Nat.mul_mod_right _ _
+  simp only [nBatches, hmod, if_true]
+  rw [hq, Nat.mul_div_cancel_left _ hB, ← Nat.mul_assoc, Nat.mul_comm e B, Nat.mul_assoc,
+    Nat.mul_div_cancel_left _ hB]
+
+example : nBatches 32 (.epochs 3 1000 4 true) = 21 ∧ nBatches 32 (.epochs 3 1024 4 false) = 24 ∧
+    nBatches 32 (.samples (3 * (1024 / 4))) = 24 := by decide
+
+/-- `updates=u`: one update is one global batch; `u` updates of full batches are `u·B` samples, and giving that
+    number as `samples=` yields the same schedule length -/
+theorem nBatches_updates_samples (u B : Nat) (hB : 0 < B) :
+    nBatches B (.samples (u * B)) = nBatches B (.updates u) ∧ nBatches B (.updates u) * B = u * B := by
+  refine ⟨?_, rfl⟩
+  simp only [nBatches, Nat.mul_mod_left, if_true, Nat.mul_div_cancel _ hB]
+
+/-- `samples=s` on the full-batch domain (`B ∣ s`): the batches cover the budget exactly -/
+theorem nBatches_samples_full (s B : Nat) (h : s % B = 0) : nBatches B (.samples s) * B = s := by
+  simp only [nBatches, h, if_true]
+  exact Nat.div_mul_cancel (Nat.dvd_of_mod_eq_zero h)
+
+/-- `drop_last`: per epoch the count is the greatest number of full batches a rank's `⌊n/W⌋` samples contain -/
+theorem nBatches_epochs_drop_last_greatest (e n W B : Nat) (hB : 0 < B) :
+    nBatches B (.epochs e n W true) = e * (n / W / B) ∧ (n / W / B) * B ≤ n / W ∧
+    ∀ k, k * B ≤ n / W → k ≤ n / W / B := by
+  refine ⟨(nBatches_epochs e n W B hB).1, Nat.div_mul_le_self _ _, ?_⟩
+  intro k hk
+  exact (Nat.le_div_iff_mul_le hB).mpr hk
 
 end KDVerif.C15
